@@ -98,4 +98,39 @@ theorem exact_transfers (I : Interp) (σ : Nat → Nat) (ρ : Nat → ℝ) (f : 
     Ex.eval I ρ e = FEx.eval (realArithOf I σ) ρ f := by
   rw [← h, eval_toEx]
 
+/-- over the reals every value is "finite": side conditions that only ask for finiteness hold outright -/
+def FEx.Cond.isFin : FEx.Cond → Bool
+  | .fin _ => true
+  | .nz _ => false
+
+theorem allHold_of_isFin (A : Arith ℝ) (ρ : Nat → ℝ) (cs : List FEx.Cond) (h : ∀ c ∈ cs, c.isFin = true) :
+    FEx.AllHold A (fun _ => True) ρ cs := by
+  intro c hc
+  cases c with
+  | fin e => trivial
+  | nz e => exact absurd (h _ hc) (by simp [FEx.Cond.isFin])
+
+/-- side conditions over the reals: the finiteness ones hold outright, the non-zero ones are what remains to be assumed -/
+theorem allHold_of_isFin_or (A : Arith ℝ) (ρ : Nat → ℝ) (cs ds : List FEx.Cond)
+    (h : ∀ c ∈ cs, c.isFin = true ∨ c ∈ ds) (hd : FEx.AllHold A (fun _ => True) ρ ds) :
+    FEx.AllHold A (fun _ => True) ρ cs := by
+  intro c hc
+  rcases h c hc with h1 | h1
+  · cases c with
+    | fin e => trivial
+    | nz e => exact absurd h1 (by simp [FEx.Cond.isFin])
+  · exact hd c h1
+
+namespace Demo
+/-- the value-mode initial-value formula as the library writes it: `u_0 + (1 - exp(-t + t_0)) * N(t)` (variables t, t_0, u_0) -/
+def ivp : FEx := .add (.var 2) (.mul (.sub .one (.un .exp (.add (.neg (.var 0)) (.var 1)))) (.app1 0 (.var 0)))
+
+/-- end to end: the exactness statement of the operation-order model (instance of `exact_at`), read in the arithmetic of the reals,
+is the real-valued value statement about the expression the first translator produces (`toEx`) -/
+example (I : Interp) (ρ : Nat → ℝ) : Ex.eval I (FEx.upd ρ 0 (ρ 1)) (FEx.toEx id ivp) = ρ 2 := by
+  rw [eval_toEx]
+  exact FEx.exact_at (realArithOf_exact I id) ivp 0 (.var 1) (.var 2) (by decide)
+    (allHold_of_isFin _ ρ _ (by decide))
+end Demo
+
 end NdeVerif
